@@ -55,6 +55,10 @@ def tasks(tier):
         if tier == "quick" and len(set(seq)) == 1 and seq[0] > 6:
             continue
         ts.append({"name": "setget:" + ">".join(KEYS[i] for i in seq), "fn": "t_setget", "args": {"seq": list(seq)}})
+        # the same sequence written through two long-lived profile objects in turn
+        # (nanite-fit holds one in fit_perform and one in fit_data)
+        ts.append({"name": "setget2:" + ">".join(KEYS[i] for i in seq), "fn": "t_setget",
+                   "args": {"seq": list(seq), "writers": 2}})
     ts.append({"name": "fitparams", "fn": "t_fitparams", "args": {}, "witnesses": ["done"]})
     rts = ["", "absolute", "relative", "bogus"]
     for rt in rts:
@@ -217,14 +221,27 @@ def _value_for(key, j):
     return ["hertz_cone", "hertz_para", "Extra Trees"][j % 3] + str(j)
 
 
-def t_setget(seq):
+def _value_for_concrete(key, j, g):
+    if key in ("weight_cp", "fit param E value"):
+        return g(f"val{j}", 0.5)
+    if key == "range_x":
+        return [g(f"lo{j}", 0.0), g(f"hi{j}", 1.0)]
+    return _value_for(key, j)
+
+
+def t_setget(seq, writers=1):
     w, prof, fp, asked = _world()
     check_assumptions()
     expect = dict(prof.DEFAULTS)
-    p = prof.Profile(path=fp)
+    objs = [prof.Profile(path=fp) for _ in range(writers)]
+    p = objs[0]
     for j, i in enumerate(seq):
         key = KEYS[i]
         v = _value_for(key, j)
+        p = objs[j % writers]
+        if writers > 1 and key in prof.DEFAULTS:
+            # a read through the long-lived object first (reads write the value back)
+            p[key]
         p[key] = v
         expect[key] = v
         core.count("transitions")
@@ -564,6 +581,33 @@ for mk in sorted(models_available):
         if got[names[-1]].vary != (not defaults[names[-1]].vary): bad.append("%s.%s vary" % (mk, names[-1]))
         for nm in names[1:-1]:
             if got[nm].value != defaults[nm].value or got[nm].vary != defaults[nm].vary: bad.append("%s.%s changed" % (mk, nm))
+shutil.rmtree(d, ignore_errors=True)
+print({ob["name"]!r}, bad[:4])
+if bad:
+    print("REPRODUCED"); sys.exit(1)
+sys.exit(0)
+'''
+    if task["fn"] == "t_setget":
+        seq = [KEYS[i] for i in a["seq"]]
+        vals = []
+        for j, key in enumerate(seq):
+            v = _value_for_concrete(key, j, g)
+            vals.append(v)
+        return common.REPLAY_HEAD + f'''
+import tempfile, pathlib, shutil
+import nanite.cli.profile as prof
+d = pathlib.Path(tempfile.mkdtemp(prefix="c19_")); path = d / "cli_profile.cfg"
+seq, vals, writers = {seq!r}, {vals!r}, {a.get("writers", 1)!r}
+objs = [prof.Profile(path=path) for _ in range(writers)]
+expect = dict(prof.DEFAULTS); bad = []
+for j, (key, v) in enumerate(zip(seq, vals)):
+    p = objs[j % writers]
+    if writers > 1 and key in prof.DEFAULTS: p[key]
+    p[key] = v; expect[key] = v
+    q = prof.Profile(path=path)
+    for k, want in expect.items():
+        got = q[k] if k in prof.DEFAULTS else q.load().get(k)
+        if got != want: bad.append("after step %d: %s is %r, written %r" % (j, k, got, want))
 shutil.rmtree(d, ignore_errors=True)
 print({ob["name"]!r}, bad[:4])
 if bad:
